@@ -100,6 +100,12 @@ def p_value_to_token(I, args, kwargs, node):
 
 
 def p_token_of_node(I, args, kwargs, node):
+    # SourceFile._token_of_node(None) raises (asttokens needs a node): callers check `node is not None` first (C18)
+    nd = args[-1]
+    if nd is None:
+        I.oblige("safety", "token_of_node.node-is-not-None [C18]", z3.BoolVal(False))
+    elif isinstance(nd, SV) and nd.ty == Abs("Node"):
+        I.oblige("safety", "token_of_node.node-is-not-None [C18]", nd.t != I.V.none_const(Abs("Node")))
     return SV(_fn("node_tokens", Abs("Node"), _Toks)(_node_term(I, args[-1])), _Toks)
 
 
@@ -139,3 +145,5 @@ R.DEFAULT_POLICIES.update({
 })
 
 R.DEFAULT_POLICIES["attrs"].update({"Node.lineno": "Int", "Node.col_offset": "Int", "Node.end_lineno": "Int", "Node.end_col_offset": "Int"})
+
+R.DEFAULT_POLICIES.update({"SourceFile.filename": "havoc"})
